@@ -163,11 +163,23 @@ class Proc:
         return self.err.decode('utf-8', 'replace')
 
 
+try:
+    import ctypes
+    _LIBC = ctypes.CDLL(None)
+except Exception:           # pragma: no cover
+    _LIBC = None
+
+
 def _limits(cpu):
     def f():
         resource.setrlimit(resource.RLIMIT_CPU, (cpu, cpu + 1))
         resource.setrlimit(resource.RLIMIT_CORE, (0, 0))
         os.setsid()
+        if _LIBC is not None:
+            try:
+                _LIBC.prctl(1, signal.SIGKILL)      # PR_SET_PDEATHSIG: never outlive the monitor
+            except Exception:
+                pass
     return f
 
 
@@ -214,13 +226,27 @@ def _init_worker():
     signal.signal(signal.SIGINT, signal.SIG_IGN)
 
 
-def pmap(func, items, procs=None, chunksize=1):
+def pmap(func, items, procs=None, chunksize=1, stop_after_bad=None, is_bad=None):
+    """Parallel map over worker processes. With stop_after_bad/is_bad the map stops early once that
+    many results are bad (a tree that violates the property must not cost hours of CPU-limit kills);
+    the results obtained so far are returned (order not preserved in that mode)."""
     procs = procs or NPROC
     if procs <= 1 or len(items) <= 1:
         return [func(x) for x in items]
     ctx = multiprocessing.get_context('fork')
     with ctx.Pool(procs, initializer=_init_worker) as pool:
-        return pool.map(func, items, chunksize)
+        if stop_after_bad is None:
+            return pool.map(func, items, chunksize)
+        out = []
+        bad = 0
+        for r in pool.imap_unordered(func, items, chunksize):
+            out.append(r)
+            if is_bad(r):
+                bad += 1
+                if bad >= stop_after_bad:
+                    pool.terminate()
+                    break
+        return out
 
 
 def rng_for(*parts):
@@ -302,6 +328,8 @@ class Reporter:
         lines = []
         shown = 0
         for sig, rep in sorted(self.viol.items(), key=lambda kv: (len(json.dumps(kv[1], ensure_ascii=False, default=str)), kv[0])):
+            if shown >= 25:
+                break       # the smallest 25 witnesses get a replay file; the total is in the evidence
             path = os.path.join(REPLAYS, '%s-%s.json' % (self.pid, sha(sig)))
             with open(path, 'w', encoding='utf-8') as f:
                 json.dump(rep, f, ensure_ascii=False, indent=1, default=str)
